@@ -402,6 +402,10 @@ def evidence(prop, tier, base_seed, done, selftest_info, wall, t_runs, nviol, kn
                 "first_events": [{k: (v if k != "value" else "<value of newest version>") for k, v in e.items()} for e in plan["events"][:6]],
             }
         )
+    if tot.get("encoder_vs_reference_mismatch") or tot.get("control_failures"):
+        # outside the C05 verdict (an encoder or same-version defect is another property's), but
+        # never silent: either the tree's encoder/decoder is broken or the reference model is
+        print("NOTE: property=%s reference cross-checks are not clean: encoder_vs_reference_mismatch=%d control_failures(same-version deliveries)=%d" % (prop, tot.get("encoder_vs_reference_mismatch", 0), tot.get("control_failures", 0)))
     cov = {
         "evaluations": tot.get("deliveries", 0),
         "distinct_nontrivial": len(nontrivial),
